@@ -266,3 +266,116 @@ func (fr *frame) raceValue(p *value, write bool, what string) {
 		fr.raceCell(p, write, what)
 	}
 }
+
+// ---------------------------------------------------------------------------------------
+// sync.Cond
+
+type icond struct {
+	q  []*gstate
+	vc vclock
+}
+
+func (s *scheduler) cond(p *value) *icond {
+	if s.conds == nil {
+		s.conds = map[*value]*icond{}
+	}
+	c := s.conds[p]
+	if c == nil {
+		c = &icond{}
+		s.conds[p] = c
+	}
+	return c
+}
+
+// condLocker returns the Locker stored in a sync.Cond (field L).
+func (fr *frame) condLocker(p *value) iface {
+	st, ok := (*p).(structure)
+	if !ok || len(st) < 2 {
+		panic(unsupported("unexpected layout of sync.Cond"))
+	}
+	l, _ := st[1].(iface)
+	if l.t == nil {
+		panic(runtimeError("invalid memory address or nil pointer dereference (sync.Cond with nil L)"))
+	}
+	return l
+}
+
+func (fr *frame) lockerCall(l iface, name string) {
+	m := fr.methodOf(l.t, name)
+	if m == nil {
+		panic(unsupported("sync.Cond: Locker without " + name))
+	}
+	call(fr.i, fr, 0, m, []value{l.v})
+}
+
+func init() {
+	stdIntrinsicsExtra["sync.NewCond"] = func(fr *frame, args []value) value {
+		cell := zero(fr.i.lookupType("sync", "Cond"))
+		cell.(structure)[1] = args[0]
+		return &cell
+	}
+	stdIntrinsicsExtra["(*sync.Cond).Wait"] = func(fr *frame, args []value) value {
+		p := args[0].(*value)
+		s := fr.i.sched
+		if s == nil {
+			panic(unsupported("sync.Cond.Wait without scheduler"))
+		}
+		l := fr.condLocker(p)
+		c := s.cond(p)
+		c.q = append(c.q, s.cur)
+		fr.lockerCall(l, "Unlock")
+		// Signal/Broadcast between the Unlock above and here must not be lost: the waiter is
+		// already queued, and ready() before block() is honoured below
+		g := s.cur
+		if inQueue(c.q, g) {
+			s.block(fr, "cond")
+		}
+		g.acquire(c.vc)
+		fr.lockerCall(l, "Lock")
+		return nil
+	}
+	stdIntrinsicsExtra["(*sync.Cond).Signal"] = func(fr *frame, args []value) value {
+		s := fr.i.sched
+		if s == nil {
+			return nil
+		}
+		c := s.cond(args[0].(*value))
+		if len(c.q) > 0 {
+			k := 0
+			if s.symbolic && len(c.q) > 1 {
+				k = fr.chooseN(len(c.q))
+			}
+			g := c.q[k]
+			c.q = append(c.q[:k:k], c.q[k+1:]...)
+			s.cur.release(&c.vc)
+			s.ready(g)
+		}
+		s.point(fr)
+		return nil
+	}
+	stdIntrinsicsExtra["(*sync.Cond).Broadcast"] = func(fr *frame, args []value) value {
+		s := fr.i.sched
+		if s == nil {
+			return nil
+		}
+		c := s.cond(args[0].(*value))
+		if len(c.q) > 0 {
+			s.cur.release(&c.vc)
+			for _, g := range c.q {
+				s.ready(g)
+			}
+			c.q = nil
+		}
+		s.point(fr)
+		return nil
+	}
+}
+
+func inQueue(q []*gstate, g *gstate) bool {
+	for _, x := range q {
+		if x == g {
+			return true
+		}
+	}
+	return false
+}
